@@ -396,7 +396,10 @@ class Prop:
                 # two input classes on which the pinned tree violates the property (see known findings)
                 tags["rect_r1_adds"] = bool(r == 1 and maxK >= 3)
                 tags["forced_into_zero_rows"] = bool(nz < n and minK > nz)
-            cases.append({"A": A, "routine": routine, "args": args, "order": order, "tags": tags})
+            c = {"A": A, "routine": routine, "args": args, "order": order, "tags": tags}
+            if kind == "int" and all(float(x).is_integer() for row in A for x in row) and rng.random() < 0.5:
+                c["int_dtype"] = tags["int_dtype"] = True      # the same matrix handed over as an int64 array
+            cases.append(c)
 
         def sq_args(n, r):
             a = {}
@@ -471,7 +474,7 @@ class Prop:
     def run(self, case):
         try:
             f = _routines()[case["routine"]]
-            A = np.array(case["A"], dtype=np.float64)
+            A = np.array(case["A"], dtype=np.int64 if case.get("int_dtype") else np.float64)
             if A.ndim != 2:
                 A = A.reshape(len(case["A"]), -1)
             A = np.asfortranarray(A) if case.get("order") == "F" else np.ascontiguousarray(A)
